@@ -15,7 +15,7 @@ def splitAt (x : String) : List String → Option (List String × List String)
   | [] => none
   | a :: r => if a = x then some ([], r) else (splitAt x r).map fun (p, q) => (a :: p, q)
 
-inductive Err | argExpected | badOption (tok : String) | missingValue (tok : String) | noScript
+inductive Err | argExpected | badOption (tok : String) | missingValue (tok : String) | noScript | ambiguous (tok : String)
 deriving DecidableEq, Repr
 
 abbrev Parsed := List String × Option String × List String
@@ -112,6 +112,16 @@ structure Cmd where
   argv     : List String      -- `sys.argv[1:]` as the program sees it
 deriving DecidableEq, Repr
 
+/-- argparse classifies *every* option-like string of the list it is given — up to the first `--` — before it assigns
+    positionals, abbreviations included: a `--xyz` that is a proper prefix of two or more long options aborts the run with
+    `ambiguous option` (finding F-C15a), wherever it stands -/
+def ambiguousPrefix (table : List OptSpec) (tok : String) : Bool :=
+  tok.startsWith "--" && tok ≠ "--" && (findOpt table tok).isNone &&
+  decide (2 ≤ (table.filter fun o => o.long.startsWith tok).length)
+
+def firstAmbiguous (table : List OptSpec) (args : List String) : Option String :=
+  (args.takeWhile (· ≠ "--")).find? (ambiguousPrefix table)
+
 /-- argparse drops a `--` that directly follows the script; any later one stays -/
 def stripSep : List String → List String
   | "--" :: r => r
@@ -129,7 +139,10 @@ def parseCmd (table : List OptSpec) (args : List String) : Except Err Cmd :=
     match decodeOpts table {} pre with
     | .error e => .error e
     | .ok (_, []) => .error .noScript
-    | .ok (o, s :: rest) => .ok { opts := o, isModule := false, target := s, argv := stripSep rest ++ post }
+    | .ok (o, s :: rest) =>
+      match firstAmbiguous table rest with
+      | some tok => .error (.ambiguous tok)
+      | none => .ok { opts := o, isModule := false, target := s, argv := stripSep rest ++ post }
 
 /-- what kernprof decides from its own options -/
 def Opts.lineByLine (o : Opts) : Bool := o.flags.contains "--line-by-line"
